@@ -904,7 +904,7 @@ class ChildRelationship:
         Perhaps we should log that the repr reconstruction failed so the user is aware.
         """
         param = self.param
-        if isinstance(param, strings):
+        if isinstance(param, str):
             result = stringify_element(param, quote_str=self.quote_str)
         elif isinstance(param, tuple):  # Currently only for numpy ndarrays
             result = ']['.join(map(repr, param))
